@@ -31,6 +31,12 @@ def gen_fdwra_case(rng, oid, kind):
         naz = int(rng.integers(1, 5))
         azs = sorted(float(a) for a in rng.choice(np.arange(0, 180, 5), naz, replace=False))
         m = Mirror.az(oid, freq, [hvgen.gen_curve_set(rng, freq, nw) for _ in range(naz)], azs)
+    if rng.random() < (0.5 if kind == "A" else 0.15):
+        # the object arrives from a time-domain rejection (sta_lta / maximum_value with hvsr=...), which wrote its selection into the masks
+        # of every azimuth: the frequency-domain run must then treat every azimuth's masks as that azimuth's own
+        mask = [bool(b) for b in (rng.random(nw) < 0.8)]
+        if sum(mask) >= 3:
+            m.tmask(mask)
     par = dict(n=float(rng.choice([0.5, 1.0, 1.5, 2.0, 2.5, 3.0])), maxit=int(rng.choice([1, 2, 3, 50])),
                dfn=str(rng.choice(hvgen.DISTS + ["log-normal"])), dmc=str(rng.choice(hvgen.DISTS + ["log-normal"])),
                range=hvgen.gen_range(rng, freq) if rng.random() < 0.4 else (None, None))
@@ -63,7 +69,8 @@ def masks_of(obj):
 
 def run(ctx):
     import hvsrpy
-    ctx.rule = ("cases = curve sets with planted outliers (traditional 5-40 windows; azimuthal 1-4 azimuths x 4-13 windows), n in {0.5..3}, "
+    ctx.rule = ("cases = curve sets with planted outliers (traditional 5-40 windows; azimuthal 1-4 azimuths x 4-13 windows; half of the azimuthal and 15 % of the "
+                "traditional objects arrive from a time-domain rejection with hvsr=...), n in {0.5..3}, "
                 "max_iterations in {1,2,3,50}, 4 distribution pairs, search ranges; compared: return value, both masks, per-iteration DEBUG "
                 "trace (statistics and mean-curve peak); probes on the implementation: permutation of windows, rescaling of amplitudes, "
                 "monotone masks; non-trivial = >=1 window rejected or the iteration limit reached; distinct by input hash")
